@@ -60,3 +60,18 @@ Print Assumptions C05_symbol_vanishes_only_at_mean_mode.
 
 Example C05_ex_rationals_formally_real : FormallyRealL QcField.
 Proof. exact Qc_formally_real_list. Qed.
+
+(* the derivative operator of the source (build_derivative_operator -> build_scaled_wavenumbers -> build_wavenumbers, re-translated on
+   every run by harness/translate/spectral.py): component c at stored index idx is the purely imaginary number i (2 pi / L) k_c with
+   k_c the signed integer wavenumber of the layout (Layout/Freq.v), for every number of axes, both indexing conventions, any pi *)
+From EXV Require Import Layout.Freq Gen.SpectralGen Tie.SpectralTie.
+Theorem C05_code_derivative_operator_is_model : forall (F : FieldT) (pi L : F) (xy : bool) (D : nat) (N : Z) (c : nat) (idx : list Z),
+  (c < D)%nat ->
+  gen_build_derivative_operator F pi xy D L N c idx = (0, (fz 2 * pi / L) * fz (wavenumber xy D N c idx))
+  /\ gen_build_scaled_wavenumbers F pi xy D L N c idx = (fz 2 * pi / L) * fz (wavenumber xy D N c idx).
+Proof.
+  intros F pi L xy D N c idx Hc. split.
+  - apply derivative_operator_tie; exact Hc.
+  - apply scaled_wavenumbers_tie; exact Hc.
+Qed.
+Print Assumptions C05_code_derivative_operator_is_model.
